@@ -61,7 +61,6 @@ func (p *Prog) HelperBinds(root *Fn) map[*types.Var][]Bind {
 	if p.hbinds == nil {
 		p.hbinds = map[*Fn]map[*types.Var][]Bind{}
 	}
-	root = root.Root()
 	if m, ok := p.hbinds[root]; ok {
 		return m
 	}
@@ -75,6 +74,9 @@ func (p *Prog) HelperBinds(root *Fn) map[*types.Var][]Bind {
 		}
 		seen[g] = true
 		ast.Inspect(g.Body, func(n ast.Node) bool {
+			if _, isLit := n.(*ast.FuncLit); isLit {
+				return false // a nested literal is a function of its own (it binds the helper's parameters separately)
+			}
 			call, ok := n.(*ast.CallExpr)
 			if !ok {
 				return true
